@@ -9,9 +9,14 @@ T = "trustfall_core::"
 _LT = re.compile(r"(?<=[<&( ,])'[a-z_][a-z0-9_]*(?=[>, ])")
 
 
+_GP = re.compile(r"<([A-Za-z_][A-Za-z0-9_]*) as ")
+
+
 def norm_lt(s):
-    """Lifetime parameter names are not identity: `OutputHandler::<'query>::finish` and `OutputHandler::<'q>::finish` are one key."""
-    return _LT.sub("'_", s)
+    """Lifetime and generic parameter names are not identity: `OutputHandler::<'query>::finish` and `OutputHandler::<'q>::finish`
+    are one key, and so are `<AdapterT as Adapter<'_>>::Vertex` and `<A as Adapter<'_>>::Vertex` (a bare identifier before `as` is a
+    generic parameter: concrete types are printed with their path)."""
+    return _GP.sub("<_ as ", _LT.sub("'_", s))
 
 
 def short_name(fn):
